@@ -165,6 +165,15 @@ def check_matrices(a, info):
         info.comparisons += 1
         if not same_floats(cells[i], rows[i]):
             raise Violation("ScoringMatrix:buffer-content", "view[%d] = %r but position %d holds %r" % (i, cells[i], i, rows[i]))
+    # a count matrix built from a dict: every element is the count it was built from, whatever its magnitude
+    table = a.get("table")
+    if table:
+        ab = letters(protein)
+        m = len(next(iter(table.values())))
+        cm = lightmotif.CountMatrix(table, protein=protein)
+        model = [[table.get(c, [0] * m)[i] for c in ab] for i in range(m)]
+        check_indexing(cm, model, "CountMatrix(dict)", info, a["picks"], lambda g, mm: list(g) == mm)
+        info.cls("count>=2^24", any(x >= 2 ** 24 for r in model for x in r))
     info.cls("protein" if protein else "dna")
     info.cls("empty", w == 0)
     info.nontrivial = w >= 2
@@ -244,7 +253,12 @@ def striped_args(draw):
 @st.composite
 def matrix_args(draw):
     protein = draw(st.booleans())
-    return {"protein": protein, "sites": draw(sites_st(protein, min_n=1, max_n=6, min_w=0, max_w=12)), "picks": draw(picks)}
+    ab = letters(protein)
+    m = draw(st.integers(1, 6))
+    cell = st.one_of(st.integers(0, 60), st.integers(0, 60), st.integers(0, 2 ** 32 - 1), st.sampled_from([2 ** 24 + 1, 2 ** 25 + 3, 2 ** 31 - 1, 2 ** 32 - 1]))
+    syms = draw(st.lists(st.sampled_from(ab), min_size=1, max_size=len(ab), unique=True))
+    table = {c: draw(st.lists(cell, min_size=m, max_size=m)) for c in syms}
+    return {"protein": protein, "sites": draw(sites_st(protein, min_n=1, max_n=6, min_w=0, max_w=12)), "picks": draw(picks), "table": table}
 
 
 @st.composite
@@ -258,7 +272,7 @@ SUBS = [
         enc_args(), check_encoded, 250, 4000),
     Sub("striped-sequence", "StripedSequence (incl. empty) before and after being reused by calculate() with up to 3 motifs of widths 1..40, and its copy: 2-D unsigned-byte view whose [column][row] element is the symbol at (column, row), padding = wildcard, any exposed extra rows = look-ahead rows; non-trivial = >= 2 rows or a view after reuse",
         striped_args(), check_striped, 250, 4000),
-    Sub("matrices", "CountMatrix / WeightMatrix / ScoringMatrix of a motif created from generated sites (width 0..12, DNA K=5 and protein K=21 where the row stride differs from the column count): len, obj[i] for negative / out-of-range / huge i, row width K, and the ScoringMatrix float view of shape (positions, symbols) equal to the rows; non-trivial = width >= 2",
+    Sub("matrices", "CountMatrix / WeightMatrix / ScoringMatrix of a motif created from generated sites (width 0..12, DNA K=5 and protein K=21 where the row stride differs from the column count): len, obj[i] for negative / out-of-range / huge i, row width K, a CountMatrix built from a dict of counts up to 2^32-1 whose elements must be those counts, and the ScoringMatrix float view of shape (positions, symbols) equal to the rows; non-trivial = width >= 2",
         matrix_args(), check_matrices, 250, 4000),
     Sub("striped-scores", "StripedScores from calculate (incl. L < M = empty): len = L-M+1, obj[i] incl. negatives, float view of shape (32, rows) whose [column][row] element is the score of position column*rows+row; empty scores must expose an empty view (no panic); non-trivial = >= 2 rows",
         score_args(), check_scores, 250, 4000),
